@@ -21,8 +21,7 @@ import numpy as np
 from scipy import optimize
 
 from ..channels import multiuser as muchannels
-from ..util.misc import (get_principal_component_matrix,
-                         least_right_singular_vectors, leig, peig,
+from ..util.misc import (least_right_singular_vectors, leig, peig,
                          update_inv_sum_diag)
 from .iabase import IASolverBaseClass
 
@@ -711,7 +710,7 @@ class IterativeIASolverBaseClass(IASolverBaseClass):
                     # that user
                     num_significant_sing_values.append(n)
 
-                    new_F = get_principal_component_matrix(self._F[k], n)
+                    new_F = self._dominant_components(self._F[k], n)
 
                     # Normalize new_F
                     new_F /= np.linalg.norm(new_F, 'fro')
@@ -722,14 +721,10 @@ class IterativeIASolverBaseClass(IASolverBaseClass):
                     # still None if no iteration was performed
                     if (self._full_F is not None
                             and self._full_F[k] is not None):
-                        # Original norm of the _full_F[k] precoder
+                        # The scaled precoder is the new precoder with the
+                        # original norm of the _full_F[k] precoder
                         original_norm = np.linalg.norm(self._full_F[k], 'fro')
-                        new_full_F = get_principal_component_matrix(
-                            self._full_F[k], n)
-                        # Restore the original norm
-                        new_full_F = new_full_F / np.linalg.norm(
-                            new_full_F, 'fro') * original_norm
-                        self._full_F[k] = new_full_F
+                        self._full_F[k] = new_F * original_norm
 
                     self.Ns[k] = n
 
@@ -746,7 +741,7 @@ class IterativeIASolverBaseClass(IASolverBaseClass):
                 # Since _W_H is None that means that we need to modify
                 # the _W member variable
                 for k, n in zip(mod_users, num_significant_sing_values):
-                    new_W = get_principal_component_matrix(self._W[k], n)
+                    new_W = self._dominant_components(self._W[k], n)
                     self._W[k] = new_W
 
             elif self._W is None:
@@ -754,7 +749,7 @@ class IterativeIASolverBaseClass(IASolverBaseClass):
                 #  _W_H member variable
                 for k, n in zip(mod_users, num_significant_sing_values):
                     W = self._W_H[k].conj().T
-                    new_W = get_principal_component_matrix(W, n)
+                    new_W = self._dominant_components(W, n)
                     self._W_H[k] = new_W.conj().T
             else:
                 # If both self._W and self._W_H are not None then
@@ -762,6 +757,31 @@ class IterativeIASolverBaseClass(IASolverBaseClass):
                 # or the self.W_H properties by mistake before
                 # _solve_finalize is called (in the solve method).
                 raise Exception("I should not be here.")
+
+    @staticmethod
+    def _dominant_components(A: np.ndarray, n: int) -> np.ndarray:
+        """
+        Returns a matrix with `n` columns: the `n` dominant left singular
+        vectors of `A`, each one scaled by its singular value.
+
+        Its columns span the same space as the best rank `n` approximation
+        of `A` (the dimensions with negligible energy are removed).
+
+        Parameters
+        ----------
+        A : np.ndarray
+            A 2D numpy array.
+        n : int
+            Number of dimensions to keep.
+
+        Returns
+        -------
+        np.ndarray
+            A 2D numpy array with the same number of rows as `A` and `n`
+            columns.
+        """
+        [U, S, _] = np.linalg.svd(A, full_matrices=False)
+        return U[:, :n] * S[:n]
 
     @classmethod
     def _is_diff_significant(cls, F_old: np.ndarray, F_new: np.ndarray,
